@@ -14,7 +14,7 @@ call on a connection object (execute, commit, rollback, close) is recorded with 
 Checked: the child only touches connections it created; the parent keeps its pooled connection object and can go on using
 it; rows committed by either process are seen by the other.  Children leave with os._exit.
 """
-import json, os, signal, sqlite3, subprocess, sys
+import json, os, signal, sqlite3, subprocess, sys, threading
 from pony.orm import Database, Required, db_session, select, commit, flush
 from pony.orm.dbapiprovider import Pool
 from pony.orm.dbproviders.sqlite import SQLitePool
@@ -190,6 +190,172 @@ def interp(kind, events, path):
         finally: os._exit(0)
     return reports[kind] if isinstance(kind, str) else reports
 
+# ---- threads: `Pool` is thread-local.  Real threads run the script in lockstep (one event at a time, in script order); a fork
+# ---- happens inside the thread the event names, so the child consists of that thread (and its record) only.
+
+def tkey(pid, tid): return str(pid) if tid == 0 else '%d.%d' % (pid, tid)
+
+def ev_parts(ev):
+    """(kind, pid, tid, act) of an event in either spelling (thread omitted = main thread 0)"""
+    if ev[0] == 'act': return ('act', ev[1], 0, ev[2]) if len(ev) == 3 else ('act', ev[1], ev[2], ev[3])
+    if ev[0] == 'fork': return ('fork', ev[1], ev[2] if len(ev) > 2 else 0, None)
+    return ('spawn', ev[1], ev[2], None)
+
+def interp_threads(kind, events, path):
+    """run a script with threads on ONE real pool object of `kind` (thread-local state); {thread key: report, 'forked:<pid>': [...]}"""
+    Pool.forked_connections[:] = []
+    p_reset(); P.cur = kind
+    pool = make_pool(kind, path)
+    n = len(events)
+    st = {'turn': 0, 'cond': threading.Condition(), 'threads': {}, 'reports': {}, 'child_fd': None, 'root': 0, 'alive': {0}}
+    def mine(i):
+        k, p, t, _ = ev_parts(events[i])
+        if p != P.me: return None
+        if k == 'spawn': return st['root'] if t not in st['alive'] else None
+        return t if t in st['alive'] else None
+    def advance(i):
+        while i < n and mine(i) is None: i += 1
+        return i
+    def newpid_at(i): return 1 + sum(1 for e in events[:i] if e[0] == 'fork')
+    def run_thread(tid):
+        held = None; obs = []; log = []
+        while True:
+            with st['cond']:
+                while st['turn'] < n and mine(st['turn']) != tid: st['cond'].wait(timeout=120)
+                if st['turn'] >= n: break
+                i = st['turn']
+            k, p, t, act = ev_parts(events[i])
+            P.cur = kind
+            if k == 'spawn':
+                st['alive'].add(t)
+                th = threading.Thread(target=thread_main, args=(t,)); st['threads'][t] = th; th.start()
+            elif k == 'fork':
+                r, w = os.pipe(); sys.stdout.flush(); sys.stderr.flush()
+                pid = os.fork()
+                if pid == 0:
+                    signal.alarm(600); os.close(r)
+                    p_become(newpid_at(i))
+                    st.update(cond=threading.Condition(), threads={}, reports={}, child_fd=w, root=tid, alive={tid})
+                    obs = []; log = []
+                else:
+                    os.close(w); data = read_all(r); os.close(r); os.waitpid(pid, 0)
+                    st['reports'].update(json.loads(data.decode()))
+            else:
+                n0 = len(P.log.get(kind, []))
+                try:
+                    if act in ('connect', 'connectFail', 'connectInitFail'):
+                        assert held is None
+                        P.fail = None if act == 'connect' else 'connect' if (act == 'connectFail' or kind == 'base') else 'init'
+                        try: con, is_new = pool.connect()
+                        finally: P.fail = None
+                        held = con; obs.append([act, canon(con), bool(is_new)])
+                    elif act == 'stmt':
+                        try:
+                            if held is not None: held.execute(MARK)
+                        except sqlite3.ProgrammingError: pass
+                        obs.append(['stmt', 'ok'])
+                    elif act == 'release':
+                        h, held = held, None
+                        if h is not None: pool.release(h)
+                        obs.append(['release', 'ok'])
+                    elif act == 'drop':
+                        h, held = held, None
+                        if h is not None: pool.drop(h)
+                        obs.append(['drop', 'ok'])
+                    else: pool.disconnect(); obs.append(['disconnect', 'ok'])
+                except Exception as e: obs.append([act, type(e).__name__])
+                log += P.log.get(kind, [])[n0:]
+            with st['cond']:
+                st['turn'] = advance(i + 1); st['cond'].notify_all()
+        pid_attr = hasattr(pool, 'pid')
+        st['reports'][tkey(P.me, tid)] = {'obs': obs, 'con': canon(pool.con), 'pidAttr': pid_attr,
+            'poolpid': (P.realmap.get(pool.pid, 'pid?') if pool.pid is not None else None) if pid_attr else None, 'held': canon(held), 'log': log}
+    def thread_main(tid):
+        try: run_thread(tid)
+        except BaseException as e:
+            st['reports'][tkey(P.me, tid)] = {'crash': repr(e)}
+            with st['cond']: st['turn'] = n; st['cond'].notify_all()
+        if st['child_fd'] is not None and tid == st['root']:
+            # this is the forking thread of a child process (its only original thread): report and leave — returning would end the process silently
+            try:
+                finish(); write_all(st['child_fd'], json.dumps(st['reports']).encode())
+            finally: os._exit(0)
+    def finish():
+        for th in list(st['threads'].values()): th.join(timeout=120)
+        st['reports']['forked:%d' % P.me] = sorted(json.dumps([canon(c), P.realmap.get(p, 'pid?') if p is not None else None]) for c, p in pool.forked_connections)
+    st['turn'] = advance(0)
+    try:
+        thread_main(0)
+        # a forked child arrives here in its forking thread (its root), whatever tid that is
+        finish()
+    except BaseException as e:
+        if st['child_fd'] is not None:
+            try: write_all(st['child_fd'], json.dumps({'crash:%d' % P.me: repr(e)}).encode())
+            finally: os._exit(1)
+        raise
+    if st['child_fd'] is not None:
+        try: write_all(st['child_fd'], json.dumps(st['reports']).encode())
+        finally: os._exit(0)
+    return st['reports']
+
+def model_thread_reports(events, out):
+    reps, cn = model_reports(out)
+    forked = {}
+    for q in out['procs']:
+        forked.setdefault(q['pid'], [])
+        forked[q['pid']] += [json.dumps([cn(c), p]) for c, p in q['forked']]
+    res = {}
+    for k, r in reps.items():
+        r = dict(r); r.pop('forked'); res[k] = r
+    for ev, o in zip(events, out['outs']):
+        k, p, t, act = ev_parts(ev)
+        if k != 'act' or not o: continue
+        r = res.get(tkey(p, t)); o = o[0]
+        if r is None: continue
+        if act.startswith('connect'):
+            r['obs'].append([act, 'AssertionError'] if o['assertError'] else [act, 'AttributeError'] if o['attrError'] else
+                            [act, 'OperationalError'] if o['failed'] else [act, cn(o['returned']), o['isNew']])
+        else: r['obs'].append([act, 'AssertionError' if o['assertError'] else 'ok'])
+        for c in o['stmts']: r['log'].append(['stmt', cn(c)])
+        for c in o['closed']: r['log'].append(['close', cn(c)])
+    for pid, l in forked.items(): res['forked:%d' % pid] = sorted(l)
+    return res
+
+THREAD_SCRIPTS = [
+    # two threads in the parent, fork from the worker thread, a new thread in the child
+    [['act', 0, 0, 'connect'], ['act', 0, 0, 'release'], ['spawn', 0, 1], ['act', 0, 1, 'connect'], ['act', 0, 1, 'stmt'], ['act', 0, 1, 'release'], ['fork', 0, 1],
+     ['act', 1, 1, 'connect'], ['act', 1, 1, 'stmt'], ['act', 1, 1, 'release'], ['spawn', 1, 2], ['act', 1, 2, 'connect'], ['act', 1, 2, 'release'],
+     ['act', 0, 0, 'connect'], ['act', 0, 0, 'release'], ['act', 0, 1, 'connect'], ['act', 0, 1, 'release']],
+    # fork from the main thread while a worker holds a connection: the worker does not exist in the child; a thread with the same number starts empty
+    [['spawn', 0, 1], ['act', 0, 1, 'connect'], ['act', 0, 0, 'connect'], ['act', 0, 0, 'release'], ['fork', 0, 0], ['spawn', 1, 1], ['act', 1, 1, 'connect'], ['act', 1, 1, 'stmt'],
+     ['act', 1, 0, 'connectFail'], ['act', 1, 0, 'connect'], ['act', 1, 0, 'drop'], ['act', 0, 1, 'stmt'], ['act', 0, 1, 'release'], ['act', 0, 0, 'disconnect']],
+    # worker forks while it holds its connection (fork point "open transaction" in a worker thread)
+    [['spawn', 0, 3], ['act', 0, 3, 'connect'], ['fork', 0, 3], ['act', 1, 3, 'stmt'], ['act', 1, 3, 'release'], ['act', 1, 3, 'connect'], ['act', 0, 3, 'release'], ['act', 0, 0, 'connect']],
+]
+
+def thread_tie(ctx, work):
+    if not ctx.driver.ok: return
+    jobs = [(k, s_) for s_ in THREAD_SCRIPTS for k in (['sqliteFile', 'base'] if not ctx.thorough else ['sqliteFile', 'base', 'sqliteMemory'])]
+    outs = ctx.driver('C36', [{'op': 'run', 'kind': k, 'events': s_} for k, s_ in jobs])
+    hp = subprocess.run([sys.executable, os.path.abspath(__file__), '--helper-threads', work], input=json.dumps(jobs), stdout=subprocess.PIPE, stderr=subprocess.PIPE, text=True, timeout=3000)
+    try: reals = json.loads(hp.stdout)
+    except ValueError: raise RuntimeError('C36 helper (threads) failed: ' + hp.stderr[-500:])
+    for (kind, script), out, real in zip(jobs, outs, reals):
+        ctx.case(['thread-tie', kind, script], kind='tie:thread-script:' + kind)
+        if 'driver_error' in out:
+            ctx.divergence('driver rejected the thread script', {'kind': kind, 'events': script}, model=out, impl=None); continue
+        reps = model_thread_reports(script, out)
+        if real != reps:
+            bad = sorted(k for k in set(real) | set(reps) if real.get(k) != reps.get(k))
+            ctx.divergence('pool model with threads and the real thread-local pool under os.fork() disagree', {'kind': kind, 'events': script, 'record': bad[0]},
+                           model=reps.get(bad[0]), impl=real.get(bad[0]))
+        for key, r in real.items():
+            if key.startswith('forked') or not isinstance(r, dict): continue
+            for o in r.get('obs', []):
+                if o[0].startswith('connect') and isinstance(o[1], list) and str(o[1][0]) != key.split('.')[0]:
+                    ctx.violation('Pool.connect returned to a thread a connection created by another process', {'kind': kind, 'events': script, 'thread': key},
+                                  observed=o, expected='a connection created by process ' + key.split('.')[0], key='pool-connect-foreign:threads:%s:%s' % (kind, THREAD_SCRIPTS.index(script)))
+
 def model_reports(out):
     """the model's final world in the shape of `interp`'s result"""
     conns = {}
@@ -202,7 +368,7 @@ def model_reports(out):
     cn = lambda c: None if c is None else rank.get((c[0], c[1]), ['?', c[0]])
     reps = {}
     for q in out['procs']:
-        reps[str(q['pid'])] = {'obs': [], 'con': cn(q['con']), 'pidAttr': q['pidAttr'], 'poolpid': q['poolpid'],
+        reps[tkey(q['pid'], q.get('tid', 0))] = {'obs': [], 'con': cn(q['con']), 'pidAttr': q['pidAttr'], 'poolpid': q['poolpid'],
                                'forked': [[cn(c), p] for c, p in q['forked']], 'held': cn(q['held']), 'log': []}
     return reps, cn
 
@@ -418,6 +584,13 @@ def ora_check(ctx, script, out, real, shrunk):
         bad = sorted(k for k in set(real) | set(reps) if real.get(k) != reps.get(k))
         ctx.divergence('OraPool model and the real OraPool (over a fake cx_Oracle.SessionPool) under os.fork() disagree', {'events': script, 'process': bad[0]},
                        model=reps.get(bad[0]), impl=real.get(bad[0]))
+    for p, r in sorted(real.items()):
+        m = reps.get(p, {})
+        if isinstance(r, dict) and m.get('forked') and len(r.get('forked', [])) < len(m['forked']) and ('parked', 'oracle') not in shrunk:
+            shrunk.add(('parked', 'oracle'))
+            ctx.violation('OraPool.connect in a forked child did not keep the inherited cx_Oracle session pool alive in OraPool.forked_pools (dropping the last reference lets the SessionPool destructor close the sessions the parent is using)',
+                          {'kind': 'oracle (real OraPool over a pid-stamping fake cx_Oracle.SessionPool)', 'events': script, 'process': p},
+                          observed=r.get('forked'), expected=m['forked'], key='ora:inherited-session-pool-not-kept-alive')
     fc = foreign_connect(real)
     if fc and 'oracle' not in shrunk:
         shrunk.add('oracle')
@@ -469,6 +642,9 @@ def fork_point_run(ctx, work, point, child_mode, n):
     db = Database('sqlite', path, create_db=(child_mode != 'file-missing-first'), factory=OCon)
     class T(db.Entity):
         v = Required(int)
+    @db.on_connect(provider='sqlite')
+    def hook(db_, connection):           # a user's connection set-up hook: must run for EVERY new connection, the forked child's included
+        LOG.append(['ON_CONNECT', os.getpid(), connection.creator, id(connection)])
     db.generate_mapping(create_tables=True)
     with db_session: T(v=1)
     parent = os.getpid()
@@ -566,6 +742,13 @@ def fork_point_run(ctx, work, point, child_mode, n):
     foreign_stmt = [e for e in foreign if e[0] != 'CLOSE()']
     foreign_close = [e for e in foreign if e[0] == 'CLOSE()']
     pforeign = [e for e in res['parent_log'] if e[1] == parent and e[2] != parent]
+    created = [e[3] for e in clog if e[0] == 'CREATE']
+    hooked = [e[3] for e in clog if e[0] == 'ON_CONNECT']
+    used = {e[3] for e in clog if e[0] in ('SELECT', 'INSERT', 'BEGIN') and e[2] == c.get('pid')}
+    if [x for x in created if x in used and x not in hooked]:
+        ctx.violation("the connection the forked child opened for itself was not initialised like a new connection: the database's on_connect hooks did not run for it (Pool.connect reported is_new_connection=False)",
+                      inp, observed={'created': len(created), 'on_connect calls': len(hooked)}, expected='one on_connect call per connection the child opens and uses',
+                      key='fork:%s:%s:child-connection-without-on_connect' % (point, child_mode))
     ctx.count('child-ops:%s:%d' % (point, len(clog)))
     if foreign_stmt:
         key = K_OPEN if point == 'open' else 'fork:%s:%s:child-statement-on-parent-connection' % (point, child_mode)
@@ -619,6 +802,7 @@ def run(ctx):
     try:
         model_witness(ctx)
         pool_tie(ctx, work)
+        thread_tie(ctx, work)
         n = 0
         for rep in range(ctx.scale(1, 4)):
             for point in ('idle', 'pooled', 'open'):
@@ -655,4 +839,11 @@ if __name__ == '__main__' and len(sys.argv) >= 3 and sys.argv[1] == '--helper':
     _scripts = json.load(sys.stdin)
     _res = [interp(k, s, os.path.join(_work, 'tie%d.sqlite' % (i % 7))) for i, (k, s) in enumerate(_scripts)]
     # (kind 'oracle' ignores the path)
+    sys.stdout.write(json.dumps(_res)); sys.stdout.flush()
+
+if __name__ == '__main__' and len(sys.argv) >= 3 and sys.argv[1] == '--helper-threads':
+    _work = sys.argv[2]
+    _jobs = json.load(sys.stdin)
+    import warnings; warnings.simplefilter('ignore', DeprecationWarning)      # os.fork() in a multi-threaded process: exactly what is being examined
+    _res = [interp_threads(k, s, os.path.join(_work, 'thr%d.sqlite' % (i % 5))) for i, (k, s) in enumerate(_jobs)]
     sys.stdout.write(json.dumps(_res)); sys.stdout.flush()
